@@ -166,7 +166,8 @@ CHECKS = {
              "flavour, locations with exactly the source blocks and strand, identifiers in qualifiers, /translation equal to the "
              "reference translation under the flavour's table. Structural: GENBANK_GENE_FEATURES vs enums, keys the parser "
              "reads for the recovered attributes vs keys the writer stores, identical stages of the three parse() pipelines."
-             " Added: a second export of the same models on another sequence in the same interpreter must show that sequence's proteins.",
+             " Added: a second export of the same models on another sequence in the same interpreter must show that sequence's proteins."
+             " Added: re-parse leg (C12.RP) - the written records, normalised to what Biopython hands back, are given to the library's own Sorted / LocusTag / Hybrid parser classes interpreted up to GeneFeature.to_gene_model; recovered structure, strand, identifiers and frames are compared with the models and the three modes must agree.",
         note="Trusted: CPython ast, sa/interp.py, the Biopython record model in sa/rules/c12.py. SeqIO's file syntax and reader are "
              "third-party and not analysed, so the file round trip and parser-mode agreement on content are not decided. Known "
              "finding: /codon_start is never written.",
